@@ -666,6 +666,15 @@ def build_overrides(ck):
     ck.samples.append({'as_matrix_overrides': table})
 
 
+def build_overrides_elsewhere(ck):
+    """the as_matrix overrides whose contracts live in the packs owning those classes (diagonal C11, block operators C10,
+    Toeplitz C09): the same scenarios are run here by reference, so that the dense form of every override is an
+    obligation of this check as well"""
+    from props import C09, C10, C11
+    for prop, pack in (('C11', C11), ('C10', C10), ('C09', C09)):
+        ck.include(pack.build, prop, lambda fn: fn.endswith('.as_matrix'))
+
+
 def build(ck):
     from props import C08
     C08.patch_class_table(ck.P)        # the decorators' rewiring (square / symmetric / orthogonal), real bodies
@@ -673,3 +682,4 @@ def build(ck):
     build_point_linearity(ck)
     build_generic(ck)
     build_overrides(ck)
+    build_overrides_elsewhere(ck)
